@@ -300,7 +300,7 @@ package nbs
 // written; the manifest update is conditional on the lock of the upstream contents the store last saw and carries
 // |current| as the new root; the cached upstream changes to the new contents only when the manifest accepted them.
 //@ func (*NomsBlockStore).updateManifest
-//@   property C02
+//@   property C02 C20
 //@   requires !verif_ghost.uCalled
 //@   ensures  old(nbs.upstream.root) != last ==> result != nil && !verif_ghost.uCalled
 //@   ensures  old(nbs.upstream.root) != last ==> nbs.upstream.root == old(nbs.upstream.root) && nbs.upstream.lock == old(nbs.upstream.lock)
